@@ -8,7 +8,10 @@ require (
 	filippo.io/edwards25519 v1.1.0 // indirect
 	github.com/dlclark/regexp2 v1.11.5 // indirect
 	github.com/go-sql-driver/mysql v1.9.3 // indirect
+	github.com/gorilla/websocket v1.5.3 // indirect
 	github.com/ncruces/go-strftime v1.0.0 // indirect
+	github.com/spf13/cobra v1.10.2 // indirect
+	github.com/spf13/pflag v1.0.9 // indirect
 	google.golang.org/protobuf v1.36.11 // indirect
 )
 
